@@ -184,3 +184,90 @@ def rf19c(run):
                       'operand layout makes it %s (out_p %d): MIR_finish_func checks that operand against the wrong expectation or '
                       'not at all' % (cn, nres, nargs, ', vararg' if va else '', nop, sorted(map(str, got)), sorted(map(str, outs)), exp, out), line=ln)
     run.min_instances(rule, 200)
+
+
+# ---------------------------------------------------------------------------------------------
+# RF19d: operands the table declares as registers are required to be registers
+# ---------------------------------------------------------------------------------------------
+
+def rf19d(run):
+    import rf_tables
+    rule = 'RF19d'
+    run.rule(rule, 'for every opcode and operand position where insn_descs declares MIR_OP_REG (a register is required, e.g. the '
+                   'variable whose address ADDR takes): either MIR_insn_op_mode yields MIR_OP_REG for it, or — where it returns the '
+                   'operand\'s own mode — MIR_finish_func sets expected_mode to MIR_OP_REG under a test that holds for that opcode and '
+                   'position; otherwise an immediate or memory operand is accepted there')
+    tu = run.tu('mir')
+    g, rows = rf_tables.read_insn_descs(tu)
+    codes = dict(tu.enum('MIR_insn_code_t'))
+    modes = dict(tu.enum('MIR_op_mode_t'))
+    f = tu.func('MIR_insn_op_mode')
+    ff = tu.func('MIR_finish_func')
+    run.functions_analysed.update({('mir', f.name), ('mir', ff.name)})
+    ev = TextEnv(tu)
+    sws = R.find_switches(f, lambda c: c.strip('()') == 'code')
+    regions = {}
+    for sw in sws:
+        for r in R.switch_regions(f, sw):
+            for nm, lo, hi in r['cases']:
+                if nm:
+                    regions[nm] = r
+            if r['default']:
+                regions['<default>'] = r
+    # assignments expected_mode = MIR_OP_REG in the validator
+    overrides = [x for x in ff.walk() if x['k'] == 'BinaryOperator' and x['op'] == '=' and F.src(F.strip(x['c'][0])) == 'expected_mode'
+                 and F.const_value(x['c'][1]) == modes['MIR_OP_REG']]
+    n = 0
+    for row in rows:
+        for k, (m, out) in enumerate(row['modes']):
+            if m != 'MIR_OP_REG':
+                continue
+            c = row['code']
+            n += 1
+            reg = regions.get(c) or regions.get('<default>')
+            env = {'code': codes[c], 'insn->code': codes[c], 'nop': k, 'nops': len(row['modes']), '*out_p': 0,
+                   'insn_descs[code].op_modes[nop]': modes['MIR_OP_REG']}
+            re_ = RetEval(ev)
+            for st in reg['stmts']:
+                if not re_.run(st, env):
+                    break
+            kinds = set()
+            for e, renv, node in re_.rets:
+                v = ev.eval(e, renv, frozenset()) if e is not None else None
+                if v is not None:
+                    kinds.add(('const', v))
+                else:
+                    kinds.add(classify(ev, e, renv, tu))
+            direct = kinds == {('const', modes['MIR_OP_REG'])}
+            covered = direct
+            how = 'MIR_insn_op_mode returns MIR_OP_REG' if direct else None
+            if not direct:
+                for x in overrides:
+                    holds = True
+                    child = x
+                    for a in ff.ancestors(x):
+                        if a['k'] == 'IfStmt':
+                            in_then = any(y is child for y in F.walk(a['c'][1])) if a['c'][1] is not None else False
+                            v = ev.eval(a['c'][0], {'code': codes[c], 'insn->code': codes[c], 'i': k}, frozenset())
+                            if v is None:
+                                # conditions about other things (e.g. operand kinds) do not select opcodes: only structural else-chains
+                                if in_then:
+                                    holds = False
+                                    break
+                            elif bool(v) != in_then:
+                                holds = False
+                                break
+                        if a['k'] in ('ForStmt', 'WhileStmt'):
+                            break
+                        child = a
+                    if holds:
+                        covered = True
+                        how = 'MIR_finish_func overrides expected_mode at line %d' % x['l']
+            run.ob(rule, (c, k), covered, {'opcode': c, 'operand': k + 1, 'MIR_insn_op_mode yields': sorted(map(str, kinds)), 'register required by': how})
+            if not covered:
+                run.violation(rule, ff, 'register operand %d of %s' % (k + 1, c),
+                              'insn_descs requires a register as operand %d of %s, but MIR_insn_op_mode returns %s for it and MIR_finish_func does '
+                              'not demand MIR_OP_REG there: `%s r, 5` is accepted' % (k + 1, c, sorted(map(str, kinds)), row['name']), line=ff.line)
+    if n < 4:
+        raise F.AnalysisBroken('only %d register-required operand positions found in insn_descs (4 confirmed by hand)' % n)
+    return n
